@@ -18,7 +18,7 @@ import c18_common as cc
 from c18_common import pick
 
 ID = 'C05'
-GEN = ['kernels']
+GEN = ['kernels', 'solve']
 PROPS = 'Props/C05.v'
 MODEL_VO = ['Model/Solve.v']
 CASE_TYPE = 'kase'
